@@ -939,8 +939,37 @@ func c15(c *Ctx) {
 	symmetric := map[string]string{"Equal:key,db": "Equal:db,key", "Equal:key,hdrdate": "Equal:hdrdate,key",
 		"cmp:(key.Value < s.dbMessage.size)": "cmp:(s.dbMessage.size > key.Value)", "cmp:(key.Value > s.dbMessage.size)": "cmp:(s.dbMessage.size < key.Value)",
 		"After:key,db": "BeforeSwapped", "Before:key,db": "AfterSwapped"}
+	// a key whose Value is lower-cased by every production of the parser needs no ToLower in the closure
+	lowerAtParser := map[string]bool{}
+	for name, allocs := range allocBy {
+		all := len(allocs) > 0
+		for _, al := range allocs {
+			stored := false
+			for _, r := range *al.Referrers() {
+				fa, ok := r.(*ssa.FieldAddr)
+				if !ok || fieldOfAddr(fa).Name() != "Value" {
+					continue
+				}
+				for _, st := range engine.StoresTo(fa) {
+					stored = true
+					call, isCall := st.Val.(*ssa.Call)
+					if !isCall || call.Call.StaticCallee() == nil || call.Call.StaticCallee().String() != "strings.ToLower" {
+						all = false
+					}
+				}
+			}
+			if !stored {
+				all = false
+			}
+		}
+		lowerAtParser[name] = all
+	}
+	curKey := ""
 	canon2 := func(a string) string {
 		x := canon(a)
+		if x == "flag:key.Value" && lowerAtParser[curKey] {
+			x = "flag:strings.ToLower(key.Value)"
+		}
 		if y, ok := symmetric[x]; ok {
 			return y
 		}
@@ -974,6 +1003,7 @@ func c15(c *Ctx) {
 			continue
 		}
 		ns++
+		curKey = tn
 		descrCtx = ctx
 		if descrCtx == nil {
 			descrCtx = map[*ssa.Parameter]ssa.Value{}
